@@ -44,6 +44,22 @@ CHECKS = {
   "note": "Trusts: Decide as the reading of the property (only GET to routed targets; a listed intermediate X-Forwarded-For entry may be 403 or served); Linux loopback source-address binding; a server hang is a tool error, not a violation.",
   "ref": "DESIGN.md section 5 C19",
  },
+ "C02": {
+  "bins": ["httpreq"], "tokio_bins": ["httpreq"], "specs": ["http"],
+  "level": "model_checking",
+  "technique": "TLA+ denotational semantics of HTTP/1.x requests plus a TLC-explored model of Request::from_stream under every read segmentation and of the serialiser; TLC-enumerated requests replayed on the sync and tokio parsers under all read plans with round trip; large random requests recorded from the code validated by TLC",
+  "text": "TLC checks Denote(Render(r))=Norm(r) and the canonical fixed point on the generated request space, shows that the parser model returns the denotation and consumes exactly the request under all segmentations and BufReader capacities (with termination), and that serialise+parse preserves request equality for any stable field order; each generated request is parsed by both real parsers under up to 184 read plans (all-at-once, bytewise, every split point, fixed and random, Poll::Pending on tokio), compared field by field and round-tripped; recorded random requests (0..40 fields, 64 KiB bodies, cookies, X-Forwarded-For with garbage) are re-derived by TLC (Trace_HttpReq).",
+  "note": "Trusts: the reading in HttpReqSyntax.tla (DESIGN 5a; None body = empty body; addresses compared as canonical text); the harness projection observe/diff; fnv64 for large payloads. Nine deviation configs must each be refuted. A request with zero headers serialises with one extra CRLF: the re-parsed request is equal (what the property states); counted in the evidence, not a violation.",
+  "ref": "DESIGN.md section 5 C02",
+ },
+ "C03": {
+  "bins": ["parsefuzz"], "tokio_bins": ["parsefuzz"], "specs": ["mutants"],
+  "level": "exploration",
+  "technique": "TLA+ definition of the parser input families enumerated by TLC and replayed into isolated worker processes (RLIMIT_AS, counting allocator, catch_unwind, watchdog, 2 MiB stack) for six parser entry points plus the tokio request parser; every recorded call judged by TLC with ParseGuard (Trace_Mutants); supervisor/worker attribution protocol model-checked (ParseSup)",
+  "text": "Bounded-exhaustive short strings over per-parser protocol alphabets, every prefix of every seed message, single-site structure-aware mutants (length fields at boundary/huge values, delimiters removed or doubled, multi-byte and invalid UTF-8 at every position, nesting 1..400 and beyond) are defined in Mutants.tla, enumerated by TLC and run, all-at-once and byte-by-byte, through the HTTP request (sync+tokio) and response parsers, the WebSocket frame and message decoders, the JSON parser and the configuration parser in a supervised worker; seeded random inputs are added; every call must return ok/err with peak allocation <= 1024*(len+64 KiB).",
+  "note": "The spec is thin by design (DESIGN 8): it defines the input families and the guard, not the parsers' memory behaviour. Trusts the worker's observation (allocator counts, RLIMIT_AS 1 GiB, watchdog) and the supervisor's attribution, whose protocol is model-checked. Self-tests with a misbehaving stand-in parser and corrupted logs run on every check.",
+  "ref": "DESIGN.md section 5 C03",
+ },
  "C04": {
   "bins": ["routing"], "tokio_bins": ["routing"], "specs": ["routing"],
   "level": "model_checking",
